@@ -295,6 +295,12 @@ fn execute_in<D: SimData>(sc: &Sc20) -> Outcome {
     let mut events: Vec<Ev20> = sc.events.clone();
     // at the end every built tenant is run once more, to completion
     let tail_start = events.len();
+    if !D::IS_BASIC {
+        // every tenant once on a working copy of the object as the history left it
+        for t in 0..sc.tenants.len() {
+            events.push(Ev20::RunOnCopy(t));
+        }
+    }
     for t in 0..sc.tenants.len() {
         events.push(Ev20::Run { tenant: t, abandon_after: None, cleanup_full: false, pop_result: t % 2 == 0 });
     }
